@@ -201,6 +201,7 @@ chain_thread (void *p)
     machine_t *m = machine_new (0, cr->guarded, cr->chain), *twin = NULL;
     int j;
     if (cr->mode == 19) twin = machine_new (0, cr->guarded, cr->chain);
+    m->allow_huge = cr->mode == 4;
     for (j = 0; j < sc->n_ops && !cr->res->violated; j++)
     {
 	mstep_t st, st2;
@@ -249,6 +250,11 @@ chain_thread (void *p)
 	{
 	    machine_normalise_slot (m, st.dst_slot);
 	    machine_normalise_slot (m, st.dst2_slot);
+	}
+	if (m->own_violation && cr->mode == 4)
+	{
+	    cr->res->op_index = j;
+	    sim_violation (cr->res, "C04", "C04/own-allocation-smaller-than-image", mop_names[op->kind], "chain '%s': %s", chain_name (cr->chain), m->own_detail);
 	}
 	if (m->acc_violation && cr->mode == 4)
 	{
@@ -408,7 +414,7 @@ add_props (gen_t *g, rng_t *r, int slot, int is_source, int extreme)
 	if (rng_chance (r, 1, 2)) gen_filter (g, slot, 1);
 	if (rng_chance (r, 2, 3)) gen_repeat (g, slot);
 	if (rng_chance (r, 1, 6)) { gen_clip (g, slot, 0); { int64_t a[6] = { 0, 0, 0, slot, 1 }; sc_addv (g->sc, MOP_SET_SOURCE_CLIPPING, 5, a); } }
-	if (rng_chance (r, 1, 6)) { int64_t a[6] = { 0, 0, 0, slot, 1 }; sc_addv (g->sc, MOP_SET_COMPONENT_ALPHA, 5, a); }
+	if (rng_chance (r, 1, 6)) { int64_t a[6] = { 0, 0, 0, slot, 1 + (int64_t)rng_n (r, 3) }; sc_addv (g->sc, MOP_SET_COMPONENT_ALPHA, 5, a); }
     }
     else
     {
@@ -507,7 +513,7 @@ gen_c02_solid_mask (gen_t *g, rng_t *r, scenario_t *sc)
     for (k = 0; k < 2; k++) for (fi[k] = 0; fi[k] < sim_n_formats - 1; fi[k]++) if (sim_formats[fi[k]] == want[k]) break;
     gen_bits_exact (g, 0, fi[0], gen_pick_size (g, 160), (int)rng_range (r, 1, 5), (int)rng_n (r, 2), rng_chance (r, 1, 6), (int)rng_n (r, 16), 0);
     gen_bits_exact (g, 3, fi[1], g->s[0].w + (int)rng_n (r, 3), g->s[0].h, (int)rng_n (r, 2), 0, (int)rng_n (r, 16), 0);
-    if (PIXMAN_FORMAT_RGB (want[1]) && rng_chance (r, 2, 3)) { int64_t a[5] = { 0, 0, 0, 3, 1 }; sc_addv (sc, MOP_SET_COMPONENT_ALPHA, 5, a); }
+    if (PIXMAN_FORMAT_RGB (want[1]) && rng_chance (r, 2, 3)) { int64_t a[5] = { 0, 0, 0, 3, 1 + (int64_t)rng_n (r, 3) }; sc_addv (sc, MOP_SET_COMPONENT_ALPHA, 5, a); }
     for (i = 0; i < n_req; i++)
     {
 	int slot = 4 + (i % 4);
@@ -750,6 +756,29 @@ gen_c04_scaled_fit (gen_t *g, rng_t *r, scenario_t *sc)
     }
 }
 
+/* an image of 4 GiB and a little whose pixels pixman allocates: the size arithmetic of its
+ * own allocation, then requests that touch rows near the top (row offsets below 2^31) */
+static void
+gen_c04_huge (gen_t *g, rng_t *r, scenario_t *sc)
+{
+    int i, n = (int)rng_range (r, 1, 4);
+    int64_t a[4] = { 0, 0, 0, 0 }, b[5] = { 0, 0, 0, 0, 0 };
+    b[4] = (int64_t)rng_n (r, 8);
+    /* two chains are plenty: the allocation does not depend on the chain */
+    sc_set (sc, "chains", (int64_t)((1u << rng_n (r, N_CHAINS)) | (1u << rng_n (r, N_CHAINS))));
+    sc_addv (sc, MOP_BITS_HUGE, 5, b);
+    /* the generator works in the top left corner of it */
+    g->s[0].used = 1; g->s[0].kind = MOP_BITS; g->s[0].w = 64; g->s[0].h = 48; g->s[0].fmt_idx = 0; g->s[0].bpp = 8; g->s[0].refs = 1; g->s[0].has_alpha = -1;
+    gen_bits (g, 1, FC_ANY, 40, 12, 0);
+    for (i = 0; i < n; i++)
+    {
+	if (rng_chance (r, 1, 2)) gen_fill_boxes (g, 0, 0, 0);
+	else if (rng_chance (r, 1, 2)) gen_composite (g, 1, 0, -1, 1);
+	else gen_composite (g, 1, 1, -1, 0);
+    }
+    a[3] = 0; sc_addv (sc, MOP_UNREF, 4, a);
+}
+
 static void
 gen_c04 (gen_t *g, rng_t *r, scenario_t *sc)
 {
@@ -841,6 +870,7 @@ generate (uint64_t seed, int tier, const char *property, scenario_t *sc)
     gen_init (&g, &r, sc, 0, 0);
     if (property && !strcmp (property, "C04"))
     {
+	if (rng_chance (&r, 1, 400)) { gen_c04_huge (&g, &r, sc); return; }
 	switch (rng_n (&r, 5))
 	{
 	case 0: gen_c04_fit (&g, &r, sc); break;
